@@ -274,7 +274,6 @@ func forwardedStore(fa *ssa.FieldAddr, ld *ssa.UnOp) ssa.Value {
 	return nil
 }
 
-
 // symField: field idx of the struct value v, seen through parameter
 // substitution and a composite literal built in place.
 func symField(c *symCtx, v ssa.Value, idx int, sub Subst, d int) string {
@@ -307,7 +306,6 @@ func symField(c *symCtx, v ssa.Value, idx int, sub Subst, d int) string {
 	}
 	return fmt.Sprintf("field(%s.#%d)", sym(c, inner, sub, d+1), idx)
 }
-
 
 // wholeStore: the unique value stored into local al as a whole, when its
 // fields are never stored individually (a struct parameter spilled by go/ssa).
